@@ -47,3 +47,4 @@ def run(ctx, R):
     a64hsem.rule_cbranch(ctx, R)
     rtpreserve.rule_const(ctx, R, 'rvv')     # the CBRANCH mask register of the vector back-end
     jitcross.rule_lwexec_a64(ctx, R)
+    rtpreserve.rule_rvv_geninput(ctx, R)
